@@ -259,6 +259,7 @@ func (r *CheckRun) Run() (code int) {
 			}
 			vc := NewVCFor(P, P.Spec.Contracts[k], r.Prop)
 			vc.workDir = r.Work
+			vc.crossCheck = r.Tier == "thorough"
 			vc.knownOpen = map[string]bool{}
 			for _, kf := range knownAll {
 				if kf.Status == "open" && kf.Property == r.Prop && kf.Func == vc.key {
@@ -464,6 +465,8 @@ type KnownFinding struct {
 	What       string `json:"what"`
 	Commit     string `json:"commit,omitempty"`
 	Replay     string `json:"replay,omitempty"`
+	ReplayPkg  string `json:"replay_pkg,omitempty"`
+	ReplayTest string `json:"replay_test,omitempty"`
 }
 
 func loadJSON(path string, v interface{}) error {
@@ -507,6 +510,21 @@ func (r *CheckRun) report(aggs []*AggObl, freports []FuncReport, vacuity []strin
 		kf := findKnown(known, r.Prop, a.Func, a.Name)
 		if kf != nil && kf.Status == "open" {
 			lines = append(lines, fmt.Sprintf("KNOWN-FINDING: property=%s %s %s: %s", r.Prop, shortKey(a.Func), a.Name, kf.What))
+			if r.Tier == "thorough" && kf.Replay != "" && kf.ReplayPkg != "" {
+				// thorough tier: show that the recorded failing input still fails on the real code
+				if src, err := os.ReadFile(kf.Replay); err == nil {
+					dir := filepath.Join(r.Verif, "replays")
+					os.MkdirAll(dir, 0o755)
+					rp := filepath.Join(dir, fmt.Sprintf("%s_finding_%s.txt", r.Prop, sanitize(a.Name)))
+					os.WriteFile(rp, []byte("known finding replay: "+kf.Replay+"\n"), 0o644)
+					ok, out := r.runReplay(&ReplaySpec{PkgPath: kf.ReplayPkg, TestName: kf.ReplayTest, Source: string(src)}, rp)
+					if ok {
+						lines = append(lines, fmt.Sprintf("  finding replay %s %s: still fails on the real code (confirmed)", kf.ReplayPkg, kf.ReplayTest))
+					} else {
+						lines = append(lines, fmt.Sprintf("  finding replay %s %s: did NOT reproduce: %s", kf.ReplayPkg, kf.ReplayTest, trunc(out, 200)))
+					}
+				}
+			}
 			knownPrinted = append(knownPrinted, id)
 			total--
 			continue
